@@ -2102,7 +2102,7 @@ class ktensor:
         if (
             len(vector) > 0
             and isinstance(vector, np.ndarray)
-            and isinstance(vector.squeeze()[0], (int, float, np.int_, np.float64))
+            and isinstance(vector.squeeze()[0], (int, float, np.number))
         ):
             return self.ttv([vector], dims, exclude_dims)
 
